@@ -106,7 +106,11 @@ def run_case(ctx, case, api=None):
             from ..stdin import PipeStdin
 
             old_stdin = _sys.stdin
-            ps = PipeStdin(data, _random.Random(case["pcm_seed"]), max_chunk=max(1, min(997, case["block"] * case["width"] * case["channels"] - 1)))
+            if (case["pcm_seed"] >> 36) & 1:
+                ps = PipeStdin(src_data, _random.Random(case["pcm_seed"]), header=b"#pcm stream follows\n")
+                ps.consume_header()
+            else:
+                ps = PipeStdin(data, _random.Random(case["pcm_seed"]), max_chunk=max(1, min(997, case["block"] * case["width"] * case["channels"] - 1)))
             _sys.stdin = ps
             try:
                 regions = list(auditok.split("-", **kw, **AC.audio_kwargs(case)))
